@@ -148,6 +148,10 @@ class CppTypeUnit(codec.TypeUnit):
                 f"  if (!r) {{ return (int8_t)(-(int) r.error()); }}\n  *s = *r; return 0;\n}}\n"
                 f"extern \"C\" int8_t h_des({cn}* c, const uint8_t* b, size_t* s) {{\n"
                 f"  {pn} o;\n  auto r = deserialize(o, nunavut::support::const_bitspan(b, *s));\n"
+                f"  if (!r) {{ return (int8_t)(-(int) r.error()); }}\n  cpp2c(o, c); *s = *r; return 0;\n}}\n"
+                # deserialization into an object that already holds a value (the C struct passed in is the prior state)
+                f"extern \"C\" int8_t h_des_prior({cn}* c, const uint8_t* b, size_t* s) {{\n"
+                f"  {pn} o; c2cpp(c, o);\n  auto r = deserialize(o, nunavut::support::const_bitspan(b, *s));\n"
                 f"  if (!r) {{ return (int8_t)(-(int) r.error()); }}\n  cpp2c(o, c); *s = *r; return 0;\n}}\n")
 
     # the C layout probe is compiled as C; the harness as C++
